@@ -2,6 +2,7 @@ pub mod addsub;
 pub mod bits;
 pub mod bytes;
 pub mod conv;
+pub mod cost;
 pub mod div;
 pub mod forms;
 pub mod history;
@@ -23,6 +24,7 @@ pub fn run(name: &str, r: &mut Rec) -> bool {
         "bits" => bits::run(r),
         "bytes" => bytes::run(r),
         "conv" => conv::run(r),
+        "cost" => cost::run(r),
         "div" => div::run(r),
         "forms" => forms::run(r),
         "history" => history::run(r),
